@@ -43,6 +43,7 @@ type leg struct {
 }
 
 var checks = map[string]checkSpec{
+	"C14": {modDir: repoDir, pkg: "./internal/crashmonitor", test: "TestVerifC14", quickS: 150, thoroS: 900, gomaxp: "2", floor: 5000, minClass: 8},
 	"C11": {modDir: repoDir, pkg: "./cmd/gotelemetry/internal/view", test: "TestVerifC11View", shards: 8, quickS: 150, thoroS: 900, gomaxp: "2", floor: 200, minClass: 6,
 		extra: []leg{{repoDir + "/godev", "./cmd/telemetrygodev", "TestVerifC11Server", 8}}},
 	"C13": {modDir: repoDir + "/godev", pkg: "./cmd/worker", test: "TestVerifC13", quickS: 200, thoroS: 1200, gomaxp: "2", floor: 1000, minClass: 5},
